@@ -183,11 +183,47 @@ def quiet_stdout():
         sys.stdout = old
 
 
-def load(path: str, suffix: str = "run", generators=None, init_functions=None):
-    """load_scenario with the scenario directory as cwd (so that its .hive.yaml is the global config)"""
+def launch_dir_with_stray_assets(d: str) -> str:
+    """a working directory BELOW the scenario directory (so that the scenario's .hive.yaml is still the global configuration found
+    by the upward search) that happens to hold files named like the library's packaged default assets, with other contents: a
+    process started there must run the scenario exactly like a process started anywhere else"""
+    import pkg_resources
+
+    ld = os.path.join(d, "launched_from_here")
+    if os.path.isdir(ld):
+        return ld
+    os.makedirs(ld)
+    src = pkg_resources.resource_filename("nrel.hive.resources.mechatronics", "mechatronics.yaml")
+    with open(src) as f:
+        mech = yaml.safe_load(f)
+    for m in mech.values():
+        for k in ("battery_capacity_kwh", "tank_capacity_gallons", "idle_kwh_per_hour", "idle_gallons_per_hour"):
+            if k in m:
+                m[k] = m[k] * 0.6
+    with open(os.path.join(ld, "mechatronics.yaml"), "w") as f:
+        yaml.safe_dump(mech, f)
+    src = pkg_resources.resource_filename("nrel.hive.resources.chargers", "default_chargers.csv")
+    rows = open(src).read().splitlines()
+    with open(os.path.join(ld, "default_chargers.csv"), "w") as f:
+        f.write(rows[0] + "\n")
+        for r in rows[1:]:
+            c = r.split(",")
+            c[2] = repr(float(c[2]) * 0.5)
+            f.write(",".join(c) + "\n")
+    for pkg in ("powercurve", "powertrain", "schedules"):
+        pdir = pkg_resources.resource_filename(f"nrel.hive.resources.{pkg}", "")
+        for fn in os.listdir(pdir):
+            if fn.endswith((".yaml", ".csv")):
+                shutil.copy(os.path.join(pdir, fn), os.path.join(ld, fn))
+    return ld
+
+
+def load(path: str, suffix: str = "run", generators=None, init_functions=None, cwd: Optional[str] = None):
+    """load_scenario with the scenario directory as cwd (so that its .hive.yaml is the global config); cwd: another working
+    directory (below the scenario directory) to launch from"""
     from nrel.hive.app import hive_cosim
 
-    d = os.path.dirname(path)
+    d = cwd or os.path.dirname(path)
     with in_dir(d), quiet_stdout():
         return hive_cosim.load_scenario(path, custom_instruction_generators=generators, custom_init_functions=init_functions, output_suffix=suffix)
 
